@@ -178,3 +178,21 @@ func checkC14(c *Ctx) {
 	lockRules(c, owners, map[string]int{"L1": 4, "L2": 1})
 	condRules(c, owners, map[string]int{"W1": 1, "W2": 1, "W2b": 1, "W3": 1, "W4": 2, "W6": 1})
 }
+
+func init() {
+	propChecks["DBG"] = func(c *Ctx) {
+		all := map[string]bool{"fun": true, "pubsub": true, "srv": true, "itertool": true, "adt": true, "dt": true, "erc": true, "ers": true, "ft": true}
+		ruleN1(c, nil, 0)
+		ruleN2(c, []FieldID{{Pkg: "fun", Type: "WorkerGroupConf"}, {Pkg: "pubsub", Type: "QueueOptions"}, {Pkg: "pubsub", Type: "DequeOptions"}, {Pkg: "pubsub", Type: "BrokerOptions"}}, 0)
+		ruleN3(c, all)
+		ruleB1(c, all, 0)
+		ruleB2(c, all, 0)
+		dtp := map[string]bool{"dt": true, "pubsub": true}
+		ruleD1(c, all, 0)
+		ruleD3(c, dtp, 0)
+		ruleD3dom(c, 0)
+		ruleD2(c, 0)
+		ruleD5(c, 0)
+		ruleD6(c, 0)
+	}
+}
